@@ -190,6 +190,66 @@ def replay(recs):
     return out
 
 
+SCALES = [1, 2000, 0.001, -3, 1500, -0.5]
+
+
+def replay_coll(groups):
+    """One quadric against a LineCollection of all its lines (secants, tangents and lines without real points in the same
+    collection, the coordinates of the lines rescaled by factors of very different magnitude), and a QuadricCollection
+    against the LineCollection position by position: every position must satisfy what the single pair satisfies."""
+    g = import_geometer()
+    out = []
+    for dim, recs in groups:
+        recs = [d for d in recs if d["r"]["r"]["k"] != "line-in-quadric"]
+        if len(recs) < 2:
+            continue
+        n = len(recs)
+        sc = np.array([SCALES[i % len(SCALES)] for i in range(n)], dtype=float)
+        variants = []
+        Q0 = recs[0]["r"]["Q"]
+        same_q = [d for d in recs if d["r"]["Q"] == Q0]
+        if dim == 2:
+            variants.append(("Conic.intersect(LineCollection)/mixed-scales", same_q,
+                             lambda rs, f: g.Conic(np.array(Q0)).intersect(g.LineCollection(np.array([d["r"]["l"] for d in rs]) * f[:, None]))))
+            variants.append(("QuadricCollection.intersect(LineCollection)/mixed-scales", recs,
+                             lambda rs, f: g.QuadricCollection(np.array([d["r"]["Q"] for d in rs]) * f[::-1, None, None]).intersect(
+                                 g.LineCollection(np.array([d["r"]["l"] for d in rs], dtype=float)))))
+            variants.append(("QuadricCollection.intersect(LineCollection)", recs,
+                             lambda rs, f: g.QuadricCollection(np.array([d["r"]["Q"] for d in rs])).intersect(
+                                 g.LineCollection(np.array([d["r"]["l"] for d in rs])))))
+        else:
+            variants.append(("Quadric.intersect(LineCollection)/3D/mixed-scales", same_q,
+                             lambda rs, f: g.Quadric(np.array(Q0)).intersect(g.join(g.PointCollection(np.array([d["r"]["A"] for d in rs]) * f[:, None]),
+                                                                                    g.PointCollection(np.array([d["r"]["B"] for d in rs]))))))
+            variants.append(("QuadricCollection.intersect(LineCollection)/3D/mixed-scales", recs,
+                             lambda rs, f: g.QuadricCollection(np.array([d["r"]["Q"] for d in rs]) * f[::-1, None, None]).intersect(
+                                 g.join(g.PointCollection(np.array([d["r"]["A"] for d in rs])), g.PointCollection(np.array([d["r"]["B"] for d in rs]))))))
+        for site, rs, fn in variants:
+            if len(rs) < 2:
+                continue
+            try:
+                with np.errstate(all="ignore"):
+                    res = fn(rs, sc[: len(rs)])
+                parts = [np.asarray(p.array) for p in res]
+                if len(parts) != 2 or any(p.shape[0] != len(rs) for p in parts):
+                    out.append(dict(site=site, stratum="collection", case={"count": len(rs)}, expected="two point collections of the length of the arguments",
+                                    observed=[list(p.shape) for p in parts]))
+                    continue
+                for i, d in enumerate(rs):
+                    r = d["r"]
+                    got = [parts[0][i], parts[1][i]]
+                    bad = check_intersection(got, r["r"], r["Q"], r["A"], r["B"], dim)
+                    if bad is not None:
+                        out.append(dict(site=site, stratum=d["s"] + ("/degenerate-quadric" if r["deg"] else ""),
+                                        case={"position": i, "Q": r["Q"], "A": r["A"], "B": r["B"], "Qs": [x["r"]["Q"] for x in rs][:8],
+                                              "lines": [x["r"].get("l", [x["r"]["A"], x["r"]["B"]]) for x in rs][:8], "scales": sc[: len(rs)].tolist()[:8]},
+                                        expected={k: r["r"][k] for k in ("k", "pts", "gpts")}, observed=bad))
+                        break
+            except Exception as e:  # noqa: BLE001
+                out.append(dict(site=site, stratum="collection", case={"count": len(rs), "Q": Q0}, expected="points", observed=f"raised {type(e).__name__}: {e}"))
+    return out
+
+
 def replay_dual_classes(_):
     """dual must work for every quadric class (the subclasses take other constructor arguments)"""
     g = import_geometer()
@@ -220,6 +280,8 @@ def _work(job):
     global THOROUGH
     try:
         THOROUGH = job[2] if len(job) > 2 else False
+        if job[0] == "coll":
+            return replay_coll(job[1])
         return replay(job[1]) if job[0] == "recs" else replay_dual_classes(None)
     except Exception:  # noqa: BLE001
         import traceback
@@ -248,6 +310,17 @@ def run(ctx: Ctx):
             raise MachineryError(f"stratum {need} never visited (vacuous)")
     ctx.log(f"{len(recs)} cases")
     jobs = [("recs", recs[i:i + 300], ctx.tier == "thorough") for i in range(0, len(recs), 300)] + [("dual", None)]
+    # collections: groups of 6 consecutive intersection cases of the same dimension, sorted by quadric (so that many groups
+    # share their quadric) and - second family - interleaved (neighbouring positions hold different quadrics and strata)
+    ncoll = 0
+    for dim in (2, 3):
+        sel = sorted((x for x in recs if x["r"]["t"] == "int" and x["r"]["d"] == dim), key=lambda x: (str(x["r"]["Q"]), x["s"]))
+        inter = sel[::7] + sel[3::7]
+        groups = [(dim, sel[i:i + 6]) for i in range(0, len(sel), 6)] + [(dim, inter[i:i + 5]) for i in range(0, len(inter), 5)]
+        ncoll += len(groups)
+        jobs += [("coll", groups[i:i + 40]) for i in range(0, len(groups), 40)]
+    if ncoll < 100:
+        raise MachineryError("too few collection groups (vacuous)")
     with Pool(16) as pool:
         results = pool.map(_work, jobs, chunksize=1)
     for res in results:
